@@ -1,0 +1,324 @@
+//go:build verif
+
+// Contracts for the verification machinery in /verif (comment-only; never compiled into a binary).
+// Property C15: admitted quota objects always form a well-formed quota tree.
+
+package elasticquota
+
+//@ uses pkg/util, apis/extension
+
+// ---------- state well-formedness facts that callers (NewQuotaTopology + the three Valid* entry points) keep ----------
+
+//@ spec func qtOK(qt *quotaTopology) bool = qt != nil && qt.quotaInfoMap != nil && qt.quotaHierarchyInfo != nil && qt.namespaceToQuotaMap != nil
+
+// every recorded QuotaInfo is a real object
+//@ spec func infosOK(qt *quotaTopology) bool = forall k string :: {has(qt.quotaInfoMap, k)} has(qt.quotaInfoMap, k) ==> qt.quotaInfoMap[k] != nil
+
+// ---------- key-set helpers ----------
+
+//@ func checkQuotaKeyIncluded [C15]
+//@   ensures #iff: result <==> (forall n v1.ResourceName :: has(child, n) ==> has(parent, n))
+//@   modifies nothing
+//@   loop 1 invariant forall n v1.ResourceName :: $seen[n] ==> has(parent, n)
+//@   loop 1 invariant forall n v1.ResourceName :: $seen[n] ==> has(child, n)
+
+//@ func checkQuotaKeySame [C15]
+//@   ensures #iff: result <==> (forall n v1.ResourceName :: has(child, n) == has(parent, n))
+//@   modifies nothing
+//@   loop 1 invariant forall n v1.ResourceName :: $seen[n] ==> has(child, n)
+//@   loop 2 invariant forall n v1.ResourceName :: has(parent, n) ==> has(child, n)
+//@   loop 2 invariant forall n v1.ResourceName :: $seen[n] ==> has(parent, n)
+
+// ---------- checkParentQuotaInfo: parent exists (in both maps), is marked as a parent, and is not a descendant of the quota ----------
+
+// parent link recorded for quota q (meaningful when q is recorded)
+//@ spec func par(qt *quotaTopology, q string) string = qt.quotaInfoMap[q].ParentName
+
+// The walk from the new parent towards the root is bounded by steps <= len(quotaInfoMap). Stated for chains of length <= 3
+// (what ValidUpdateQuota's #acyclic1..3 need): the k-th ancestor of parentName (k = 0, 1, 2) differs from quotaName as long as
+// the walk does not stop earlier at the root / at an unrecorded quota. The third step needs len(quotaInfoMap) >= 2.
+//@ func (*quotaTopology).checkParentQuotaInfo [C15]
+//@   requires qtOK(qt) && infosOK(qt)
+//@   ensures #root: parentName == extension.RootQuotaName ==> result == nil
+//@   ensures #parent: result == nil && parentName != extension.RootQuotaName ==> has(qt.quotaInfoMap, parentName) && has(qt.quotaHierarchyInfo, parentName) && qt.quotaInfoMap[parentName].IsParent
+//@   ensures #bad-parent: parentName != extension.RootQuotaName && !(has(qt.quotaInfoMap, parentName) && has(qt.quotaHierarchyInfo, parentName) && qt.quotaInfoMap[parentName].IsParent) ==> result != nil
+//@   ensures #anc1: result == nil && parentName != extension.RootQuotaName ==> parentName != quotaName
+//@   ensures #anc2: result == nil && parentName != extension.RootQuotaName && par(qt, parentName) != extension.RootQuotaName ==> par(qt, parentName) != quotaName
+//@   ensures #anc3: result == nil && parentName != extension.RootQuotaName && par(qt, parentName) != extension.RootQuotaName && has(qt.quotaInfoMap, par(qt, parentName)) && par(qt, par(qt, parentName)) != extension.RootQuotaName && len(qt.quotaInfoMap) >= 2 ==> par(qt, par(qt, parentName)) != quotaName
+//@   ensures #self-rejected: parentName != extension.RootQuotaName && parentName == quotaName ==> result != nil
+//@   modifies nothing
+//@   loop 1 invariant steps >= 0 && has(qt.quotaInfoMap, parentName)
+//@   loop 1 invariant steps == 0 ==> ancestor == parentName
+//@   loop 1 invariant steps >= 1 ==> parentName != quotaName
+//@   loop 1 invariant steps == 1 ==> ancestor == par(qt, parentName)
+//@   loop 1 invariant steps >= 2 ==> par(qt, parentName) != quotaName && par(qt, parentName) != extension.RootQuotaName && has(qt.quotaInfoMap, par(qt, parentName))
+//@   loop 1 invariant steps == 2 ==> ancestor == par(qt, par(qt, parentName))
+//@   loop 1 invariant steps >= 3 ==> par(qt, par(qt, parentName)) != quotaName && par(qt, par(qt, parentName)) != extension.RootQuotaName
+
+// ---------- validateQuotaSelfItem: the quota object on its own ----------
+
+//@ func (*quotaTopology).validateQuotaSelfItem [C15]
+//@   requires quota != nil
+//@   ensures #minmax: result == nil ==> (forall n v1.ResourceName :: has(quota.Spec.Min, n) ==> has(quota.Spec.Max, n) && val(quota.Spec.Min, n) <= val(quota.Spec.Max, n))
+//@   ensures #nonneg: result == nil ==> (forall n v1.ResourceName :: (has(quota.Spec.Max, n) ==> val(quota.Spec.Max, n) >= 0) && (has(quota.Spec.Min, n) ==> val(quota.Spec.Min, n) >= 0))
+//@   ensures #accept: quota.Spec.Max == nil && quota.Spec.Min == nil && quota.ObjectMeta.Annotations == nil ==> result == nil
+//@   assert after call IsNegative: #witness: len(result) > 0 ==> has($arg0, result[0]) && val($arg0, result[0]) < 0
+//@   modifies nothing
+//@   loop 1 invariant forall n v1.ResourceName :: $seen[n] ==> has(quota.Spec.Max, n) && val(quota.Spec.Min, n) <= val(quota.Spec.Max, n)
+
+// ---------- checkIsParentChange ----------
+
+// The pod listing is an environment call (API server); it writes only its own fresh PodList / ListOptions objects.
+// TRUSTED: the option objects are allocated inside a loop, which makes the engine forget those heaps; the frame cannot be
+// re-established by an invariant (slice-element heap), so the (obvious) frame is assumed; the result is arbitrary.
+//@ func hasQuotaBoundedPods [C15]
+//@   modifies nothing
+//@   option trusted
+
+//@ func (*quotaTopology).checkIsParentChange [C15]
+//@   requires qtOK(qt) && quotaInfo != nil
+//@   ensures #same: oldQuotaInfo == nil || oldQuotaInfo.IsParent == quotaInfo.IsParent ==> result == nil
+//@   ensures #demote: oldQuotaInfo != nil && oldQuotaInfo.IsParent && !quotaInfo.IsParent ==> (result == nil <==> len(qt.quotaHierarchyInfo[oldQuotaInfo.Name]) == 0)
+//@   ensures #promote: calls("hasQuotaBoundedPods") == (oldQuotaInfo != nil && !oldQuotaInfo.IsParent && quotaInfo.IsParent ? 1 : 0)
+//@   modifies nothing
+
+// ---------- checkTreeID ----------
+
+//@ func (*quotaTopology).checkTreeID [C15]
+//@   requires qtOK(qt) && infosOK(qt) && quotaInfo != nil
+//@   ensures #iff: result == nil <==> ((oldQuotaInfo == nil || oldQuotaInfo.TreeID == quotaInfo.TreeID) && (quotaInfo.ParentName == extension.RootQuotaName || !has(qt.quotaInfoMap, quotaInfo.ParentName) || qt.quotaInfoMap[quotaInfo.ParentName].TreeID == quotaInfo.TreeID) && (forall c string :: has(qt.quotaHierarchyInfo[quotaInfo.Name], c) && has(qt.quotaInfoMap, c) ==> qt.quotaInfoMap[c].TreeID == quotaInfo.TreeID))
+//@   modifies nothing
+//@   loop 1 invariant forall c string :: $seen[c] && has(qt.quotaInfoMap, c) ==> qt.quotaInfoMap[c].TreeID == quotaInfo.TreeID
+
+// ---------- checkSubAndParentGroupQuotaKey: resource dimensions agree along the tree ----------
+
+//@ spec func keysAgree(p *QuotaInfo, c *QuotaInfo, enableUpdate bool) bool = (enableUpdate ? (forall n v1.ResourceName :: has(c.CalculateInfo.Max, n) ==> has(p.CalculateInfo.Max, n)) : (forall n v1.ResourceName :: has(c.CalculateInfo.Max, n) == has(p.CalculateInfo.Max, n))) && (forall n v1.ResourceName :: has(c.CalculateInfo.Min, n) ==> has(p.CalculateInfo.Min, n))
+
+//@ func (*quotaTopology).checkSubAndParentGroupQuotaKey [C15]
+//@   requires qtOK(qt) && infosOK(qt) && quotaInfo != nil
+//@   requires quotaInfo.Name != extension.RootQuotaName && quotaInfo.ParentName != extension.RootQuotaName ==> has(qt.quotaInfoMap, quotaInfo.ParentName)
+//@   ensures #iff: result == nil <==> (quotaInfo.Name == extension.RootQuotaName || ((quotaInfo.ParentName != extension.RootQuotaName ==> keysAgree(qt.quotaInfoMap[quotaInfo.ParentName], quotaInfo, enableUpdateResourceKey)) && (forall c string :: has(qt.quotaHierarchyInfo[quotaInfo.Name], c) ==> has(qt.quotaInfoMap, c) && keysAgree(quotaInfo, qt.quotaInfoMap[c], enableUpdateResourceKey))))
+//@   modifies nothing
+//@   loop 1 invariant forall c string :: $seen[c] ==> has(qt.quotaInfoMap, c) && keysAgree(quotaInfo, qt.quotaInfoMap[c], enableUpdateResourceKey)
+
+// ---------- min sums ----------
+
+// Admitted quotas never declare a negative min (validateQuotaSelfItem rejects them), so a sum of mins bounds each term.
+//@ spec func minsNonNeg(qt *quotaTopology) bool = forall k string, n v1.ResourceName :: {val(qt.quotaInfoMap[k].CalculateInfo.Min, n)} has(qt.quotaInfoMap, k) ==> val(qt.quotaInfoMap[k].CalculateInfo.Min, n) >= 0
+
+
+// Sum over the children of parentName except skipQuota. Without recursive sums the contract states: when the call
+// succeeds every counted child is recorded; the result is a new list; it dominates every counted child's min, key set
+// and value (the mins being non-negative); it is exactly 0 / exactly the single child's min when zero / one child is counted.
+//@ func (*quotaTopology).getChildMinQuotaSumExceptSpecificChild [C15]
+//@   requires qtOK(qt) && infosOK(qt) && minsNonNeg(qt)
+//@   ensures #ok: err == nil <==> (parentName == extension.RootQuotaName || (has(qt.quotaHierarchyInfo, parentName) && (forall c string :: has(qt.quotaHierarchyInfo[parentName], c) && c != skipQuota ==> has(qt.quotaInfoMap, c))))
+//@   ensures #fresh: err == nil ==> allChildQuotaSum != nil && fresh(allChildQuotaSum)
+//@   ensures #root: parentName == extension.RootQuotaName ==> (forall n v1.ResourceName :: !has(allChildQuotaSum, n) && val(allChildQuotaSum, n) == 0)
+//@   ensures #nonneg: err == nil ==> (forall n v1.ResourceName :: val(allChildQuotaSum, n) >= 0)
+//@   ensures #bound: err == nil && parentName != extension.RootQuotaName ==> (forall c string, n v1.ResourceName :: has(qt.quotaHierarchyInfo[parentName], c) && c != skipQuota ==> val(allChildQuotaSum, n) >= val(qt.quotaInfoMap[c].CalculateInfo.Min, n) && (has(qt.quotaInfoMap[c].CalculateInfo.Min, n) ==> has(allChildQuotaSum, n)))
+//@   ensures #none: err == nil && (forall c string :: has(qt.quotaHierarchyInfo[parentName], c) ==> c == skipQuota) ==> (forall n v1.ResourceName :: val(allChildQuotaSum, n) == 0)
+//@   ensures #one: err == nil && parentName != extension.RootQuotaName ==> (forall c0 string :: has(qt.quotaHierarchyInfo[parentName], c0) && c0 != skipQuota && (forall c string :: has(qt.quotaHierarchyInfo[parentName], c) && c != skipQuota ==> c == c0) ==> (forall n v1.ResourceName :: val(allChildQuotaSum, n) == val(qt.quotaInfoMap[c0].CalculateInfo.Min, n)))
+//@   ensures #zero: err == nil && (forall c string, n v1.ResourceName :: has(qt.quotaHierarchyInfo[parentName], c) && c != skipQuota ==> val(qt.quotaInfoMap[c].CalculateInfo.Min, n) == 0) ==> (forall n v1.ResourceName :: val(allChildQuotaSum, n) == 0)
+//@   modifies nothing
+//@   loop 1 invariant allChildQuotaSum != nil && fresh(allChildQuotaSum) && err == nil
+//@   loop 1 invariant forall c string :: $seen[c] && c != skipQuota ==> has(qt.quotaInfoMap, c)
+//@   loop 1 invariant forall n v1.ResourceName :: val(allChildQuotaSum, n) >= 0
+//@   loop 1 invariant forall c string, n v1.ResourceName :: $seen[c] && c != skipQuota ==> val(allChildQuotaSum, n) >= val(qt.quotaInfoMap[c].CalculateInfo.Min, n) && (has(qt.quotaInfoMap[c].CalculateInfo.Min, n) ==> has(allChildQuotaSum, n))
+//@   loop 1 invariant (forall c string :: $seen[c] ==> c == skipQuota) ==> (forall n v1.ResourceName :: val(allChildQuotaSum, n) == 0)
+//@   loop 1 invariant forall c0 string :: $seen[c0] && c0 != skipQuota && (forall c string :: $seen[c] && c != skipQuota ==> c == c0) ==> (forall n v1.ResourceName :: val(allChildQuotaSum, n) == val(qt.quotaInfoMap[c0].CalculateInfo.Min, n))
+//@   loop 1 invariant (forall c string, n v1.ResourceName :: has(children, c) && c != skipQuota ==> val(qt.quotaInfoMap[c].CalculateInfo.Min, n) == 0) ==> (forall n v1.ResourceName :: val(allChildQuotaSum, n) == 0)
+
+// ---------- checkMinQuotaValidate: children's mins sum to at most the parent's min ----------
+
+//@ spec func minOf(qt *quotaTopology, k string) v1.ResourceList = qt.quotaInfoMap[k].CalculateInfo.Min
+
+// What is provable without a recursive sum: the value compared against the parent's min is exactly
+// (accumulated sibling sum) + (own min) [call-site assertions #cmp-parent / #cmp-children], hence on acceptance
+//   - own min + any single sibling's min <= parent's min, own min <= parent's min, own min's keys are bounded by 0 outside the parent's keys,
+//   - every child's min <= own min,
+// and with at most one sibling / one child the statement is the exact sum (from #none / #one of the sum function).
+// NOT expressible: "sum over all siblings" as a closed formula for an arbitrary number of children.
+//@ func (*quotaTopology).checkMinQuotaValidate [C15]
+//@   requires qtOK(qt) && infosOK(qt) && minsNonNeg(qt) && newQuotaInfo != nil
+//@   requires newQuotaInfo.ParentName != extension.RootQuotaName ==> has(qt.quotaInfoMap, newQuotaInfo.ParentName)
+//@   ensures #exempt: newQuotaInfo.AllowForceUpdate || newQuotaInfo.IsTreeRoot ==> result == nil
+//@   ensures #siblings: result == nil && !newQuotaInfo.AllowForceUpdate && !newQuotaInfo.IsTreeRoot && newQuotaInfo.ParentName != extension.RootQuotaName ==> (forall c string, n v1.ResourceName :: has(qt.quotaHierarchyInfo[newQuotaInfo.ParentName], c) && c != newQuotaInfo.Name ==> val(minOf(qt, c), n) + val(newQuotaInfo.CalculateInfo.Min, n) <= val(minOf(qt, newQuotaInfo.ParentName), n))
+//@   ensures #self: result == nil && !newQuotaInfo.AllowForceUpdate && !newQuotaInfo.IsTreeRoot && newQuotaInfo.ParentName != extension.RootQuotaName ==> (forall n v1.ResourceName :: val(newQuotaInfo.CalculateInfo.Min, n) <= val(minOf(qt, newQuotaInfo.ParentName), n))
+//@   ensures #children: result == nil && !newQuotaInfo.AllowForceUpdate && !newQuotaInfo.IsTreeRoot && newQuotaInfo.Name != extension.RootQuotaName ==> (forall c string, n v1.ResourceName :: has(qt.quotaHierarchyInfo[newQuotaInfo.Name], c) && c != "" ==> has(qt.quotaInfoMap, c) && val(minOf(qt, c), n) <= val(newQuotaInfo.CalculateInfo.Min, n))
+//@   ensures #registered: result == nil && !newQuotaInfo.AllowForceUpdate && !newQuotaInfo.IsTreeRoot && newQuotaInfo.ParentName != extension.RootQuotaName ==> has(qt.quotaHierarchyInfo, newQuotaInfo.ParentName)
+//@   ensures #compared: result == nil && !newQuotaInfo.AllowForceUpdate && !newQuotaInfo.IsTreeRoot ==> calls("LessThanOrEqualCompletely") == (newQuotaInfo.ParentName != extension.RootQuotaName ? 1 : 0) + (len(qt.quotaHierarchyInfo[newQuotaInfo.Name]) > 0 ? 1 : 0)
+//@   assert before call getChildMinQuotaSumExceptSpecificChild#1: #sum-parent: $arg0 == newQuotaInfo.ParentName && $arg1 == newQuotaInfo.Name
+//@   assert before call getChildMinQuotaSumExceptSpecificChild#2: #sum-children: $arg0 == newQuotaInfo.Name && $arg1 == ""
+//@   assert before call LessThanOrEqualCompletely#1: #cmp-parent: (forall n v1.ResourceName :: val($arg0, n) == val(childMinSumNotIncludeSelf, n) + val(newQuotaInfo.CalculateInfo.Min, n)) && $arg1 == minOf(qt, newQuotaInfo.ParentName)
+//@   assert before call LessThanOrEqualCompletely#2: #cmp-children: $arg0 == childMinSum && $arg1 == newQuotaInfo.CalculateInfo.Min
+//@   modifies nothing
+// (#children excludes a child named "": the code passes "" as "skip nobody", so a child with the empty name would not be
+// counted. Kubernetes object names are never empty, so this is not reachable.)
+
+// ---------- guaranteed check (feature-gated, recursive walk towards the root): only its frame is stated ----------
+
+//@ func (*quotaTopology).checkParentGuaranteed [C15]
+//@   requires qtOK(qt) && infosOK(qt)
+//@   modifies nothing
+
+//@ func (*quotaTopology).checkGuaranteedForMin [C15]
+//@   requires qtOK(qt) && infosOK(qt) && quotaInfo != nil
+//@   ensures #exempt: quotaInfo.AllowForceUpdate || quotaInfo.TreeID == "" || quotaInfo.IsTreeRoot ==> result == nil
+//@   modifies nothing
+
+// ---------- validateQuotaTopology: acceptance means every sub-check accepted ----------
+
+//@ spec func gateKeys() bool = utilfeature.DefaultFeatureGate.Enabled(features.ElasticQuotaEnableUpdateResourceKey)
+
+//@ func (*quotaTopology).validateQuotaTopology [C15]
+//@   requires qtOK(qt) && infosOK(qt) && minsNonNeg(qt) && newQuotaInfo != nil
+//@   ensures #root: newQuotaInfo.Name == extension.RootQuotaName ==> result == nil
+//@   ensures #isparent: result == nil && newQuotaInfo.Name != extension.RootQuotaName && oldQuotaInfo != nil && oldQuotaInfo.IsParent && !newQuotaInfo.IsParent ==> len(qt.quotaHierarchyInfo[oldQuotaInfo.Name]) == 0
+//@   ensures #treeid: result == nil && newQuotaInfo.Name != extension.RootQuotaName ==> ((oldQuotaInfo == nil || oldQuotaInfo.TreeID == newQuotaInfo.TreeID) && (newQuotaInfo.ParentName == extension.RootQuotaName || !has(qt.quotaInfoMap, newQuotaInfo.ParentName) || qt.quotaInfoMap[newQuotaInfo.ParentName].TreeID == newQuotaInfo.TreeID) && (forall c string :: has(qt.quotaHierarchyInfo[newQuotaInfo.Name], c) && has(qt.quotaInfoMap, c) ==> qt.quotaInfoMap[c].TreeID == newQuotaInfo.TreeID))
+//@   ensures #parent: result == nil && newQuotaInfo.Name != extension.RootQuotaName && newQuotaInfo.ParentName != extension.RootQuotaName ==> has(qt.quotaInfoMap, newQuotaInfo.ParentName) && has(qt.quotaHierarchyInfo, newQuotaInfo.ParentName) && qt.quotaInfoMap[newQuotaInfo.ParentName].IsParent
+//@   ensures #keys-parent: result == nil && newQuotaInfo.Name != extension.RootQuotaName && newQuotaInfo.ParentName != extension.RootQuotaName ==> keysAgree(qt.quotaInfoMap[newQuotaInfo.ParentName], newQuotaInfo, gateKeys())
+//@   ensures #keys-children: result == nil && newQuotaInfo.Name != extension.RootQuotaName && (newQuotaInfo.IsParent || newQuotaInfo.ParentName != extension.RootQuotaName) ==> (forall c string :: has(qt.quotaHierarchyInfo[newQuotaInfo.Name], c) ==> has(qt.quotaInfoMap, c) && keysAgree(newQuotaInfo, qt.quotaInfoMap[c], gateKeys()))
+//@   ensures #min-parent: result == nil && newQuotaInfo.Name != extension.RootQuotaName && newQuotaInfo.ParentName != extension.RootQuotaName && !newQuotaInfo.AllowForceUpdate && !newQuotaInfo.IsTreeRoot ==> (forall c string, n v1.ResourceName :: has(qt.quotaHierarchyInfo[newQuotaInfo.ParentName], c) && c != newQuotaInfo.Name ==> val(minOf(qt, c), n) + val(newQuotaInfo.CalculateInfo.Min, n) <= val(minOf(qt, newQuotaInfo.ParentName), n)) && (forall n v1.ResourceName :: val(newQuotaInfo.CalculateInfo.Min, n) <= val(minOf(qt, newQuotaInfo.ParentName), n))
+//@   ensures #min-children: result == nil && newQuotaInfo.Name != extension.RootQuotaName && (newQuotaInfo.IsParent || newQuotaInfo.ParentName != extension.RootQuotaName) && !newQuotaInfo.AllowForceUpdate && !newQuotaInfo.IsTreeRoot ==> (forall c string, n v1.ResourceName :: has(qt.quotaHierarchyInfo[newQuotaInfo.Name], c) && c != "" ==> val(minOf(qt, c), n) <= val(newQuotaInfo.CalculateInfo.Min, n))
+//@   ensures #all-called: result == nil && newQuotaInfo.Name != extension.RootQuotaName ==> calls("checkIsParentChange") == 1 && calls("checkTreeID") == 1 && (newQuotaInfo.IsParent || newQuotaInfo.ParentName != extension.RootQuotaName ==> calls("checkParentQuotaInfo") == 1 && calls("checkSubAndParentGroupQuotaKey") == 1 && calls("checkMinQuotaValidate") == 1)
+//@   ensures #anc1: result == nil && newQuotaInfo.Name != extension.RootQuotaName && newQuotaInfo.ParentName != extension.RootQuotaName ==> newQuotaInfo.ParentName != newQuotaInfo.Name
+//@   ensures #anc2: result == nil && newQuotaInfo.Name != extension.RootQuotaName && newQuotaInfo.ParentName != extension.RootQuotaName && par(qt, newQuotaInfo.ParentName) != extension.RootQuotaName ==> par(qt, newQuotaInfo.ParentName) != newQuotaInfo.Name
+//@   ensures #anc3: result == nil && newQuotaInfo.Name != extension.RootQuotaName && newQuotaInfo.ParentName != extension.RootQuotaName && par(qt, newQuotaInfo.ParentName) != extension.RootQuotaName && has(qt.quotaInfoMap, par(qt, newQuotaInfo.ParentName)) && par(qt, par(qt, newQuotaInfo.ParentName)) != extension.RootQuotaName && len(qt.quotaInfoMap) >= 2 ==> par(qt, par(qt, newQuotaInfo.ParentName)) != newQuotaInfo.Name
+//@   modifies nothing
+
+// ---------- the recorded copy of a quota object ----------
+
+//@ spec func parentOf(q *v1alpha1.ElasticQuota) string = (q.ObjectMeta.Labels[extension.LabelQuotaParent] == "" && q.ObjectMeta.Name != extension.RootQuotaName) ? extension.RootQuotaName : q.ObjectMeta.Labels[extension.LabelQuotaParent]
+//@ spec func sameRL(a v1.ResourceList, b v1.ResourceList) bool = forall n v1.ResourceName :: {has(a, n)} {val(a, n)} has(a, n) == has(b, n) && val(a, n) == val(b, n)
+//@ spec func mirrors(qi *QuotaInfo, q *v1alpha1.ElasticQuota) bool = qi.Name == q.ObjectMeta.Name && qi.ParentName == parentOf(q) && qi.IsParent == (q.ObjectMeta.Labels[extension.LabelQuotaIsParent] == "true") && qi.AllowLentResource == (q.ObjectMeta.Labels[extension.LabelAllowLentResource] != "false") && qi.TreeID == q.ObjectMeta.Labels[extension.LabelQuotaTreeID] && qi.IsTreeRoot == (q.ObjectMeta.Labels[extension.LabelQuotaIsRoot] == "true") && qi.AllowForceUpdate == (q.ObjectMeta.Labels[extension.LabelAllowForceUpdate] == "true") && sameRL(qi.CalculateInfo.Min, q.Spec.Min) && sameRL(qi.CalculateInfo.Max, q.Spec.Max)
+
+//@ func NewQuotaInfoFromQuota [C15]
+//@   requires quota != nil
+//@   ensures #fresh: result != nil && fresh(result)
+//@   ensures #fields: mirrors(result, quota)
+//@   modifies nothing
+
+//@ func NewQuotaInfo [C15]
+//@   ensures #fresh: result != nil && fresh(result)
+//@   ensures #fields: result.Name == name && result.ParentName == parentName && result.IsParent == isParent && result.AllowLentResource == allowLentResource && result.TreeID == "" && !result.IsTreeRoot && !result.AllowForceUpdate
+//@   modifies nothing
+
+//@ func (*QuotaInfo).setMinQuotaNoLock [C15]
+//@   requires qi != nil
+//@   ensures sameRL(qi.CalculateInfo.Min, res)
+//@   modifies qi.CalculateInfo.Min
+
+//@ func (*QuotaInfo).setMaxQuotaNoLock [C15]
+//@   requires qi != nil
+//@   ensures sameRL(qi.CalculateInfo.Max, res)
+//@   modifies qi.CalculateInfo.Max
+
+// ---------- the three admission entry points ----------
+
+// Data-structure invariants kept by NewQuotaTopology and by every writer of the three maps:
+//  hierOK : the root has a children set; every children set is a real map; two parents never share one set object
+//  namesOK: a QuotaInfo is filed under its own name
+//@ spec func hierOK(qt *quotaTopology) bool = has(qt.quotaHierarchyInfo, extension.RootQuotaName) && (forall p string :: {has(qt.quotaHierarchyInfo, p)} has(qt.quotaHierarchyInfo, p) ==> qt.quotaHierarchyInfo[p] != nil) && (forall p1 string, p2 string :: has(qt.quotaHierarchyInfo, p1) && has(qt.quotaHierarchyInfo, p2) && p1 != p2 ==> qt.quotaHierarchyInfo[p1] != qt.quotaHierarchyInfo[p2])
+//@ spec func namesOK(qt *quotaTopology) bool = forall k string :: {has(qt.quotaInfoMap, k)} has(qt.quotaInfoMap, k) ==> qt.quotaInfoMap[k].Name == k
+//@ spec func topoOK(qt *quotaTopology) bool = qtOK(qt) && infosOK(qt) && minsNonNeg(qt) && hierOK(qt) && namesOK(qt)
+
+// the three maps (and every children set) are exactly as at entry
+//@ spec func topoUnchanged(qt *quotaTopology) bool = (forall k string :: has(qt.quotaInfoMap, k) == old(has(qt.quotaInfoMap, k)) && qt.quotaInfoMap[k] == old(qt.quotaInfoMap[k])) && (forall p string :: has(qt.quotaHierarchyInfo, p) == old(has(qt.quotaHierarchyInfo, p)) && qt.quotaHierarchyInfo[p] == old(qt.quotaHierarchyInfo[p])) && (forall p string, c string :: has(qt.quotaHierarchyInfo[p], c) == old(has(qt.quotaHierarchyInfo[p], c))) && (forall ns string :: has(qt.namespaceToQuotaMap, ns) == old(has(qt.namespaceToQuotaMap, ns)) && qt.namespaceToQuotaMap[ns] == old(qt.namespaceToQuotaMap[ns]))
+
+// the webhook's namespace index is its own map object, not the label / annotation map of a request object
+//@ spec func separate(qt *quotaTopology, q *v1alpha1.ElasticQuota) bool = qt.namespaceToQuotaMap != q.ObjectMeta.Labels && qt.namespaceToQuotaMap != q.ObjectMeta.Annotations
+//@ spec func nsOf(q *v1alpha1.ElasticQuota) []string = extension.GetAnnotationQuotaNamespaces(q)
+//@ spec func inList(s []string, x string) bool = exists i int :: 0 <= i && i < len(s) && s[i] == x
+
+// The QuotaInfo objects already recorded are never written (no all(QuotaInfo).f in any modifies clause below: checked).
+//@ func (*quotaTopology).ValidAddQuota [C15]
+//@   requires topoOK(qt)
+//@   requires quota != nil ==> separate(qt, quota)
+//@   ensures #nilarg: quota == nil ==> result != nil
+//@   ensures #dup: quota != nil && old(has(qt.quotaInfoMap, quota.ObjectMeta.Name)) ==> result != nil
+//@   ensures #nsbound: quota != nil && (exists i int :: 0 <= i && i < len(nsOf(quota)) && old(has(qt.namespaceToQuotaMap, nsOf(quota)[i]))) ==> result != nil
+//@   ensures #reject-frame: result != nil ==> topoUnchanged(qt)
+//@   ensures #self: result == nil ==> (forall n v1.ResourceName :: has(quota.Spec.Min, n) ==> has(quota.Spec.Max, n) && val(quota.Spec.Min, n) <= val(quota.Spec.Max, n) && val(quota.Spec.Min, n) >= 0)
+//@   ensures #recorded: result == nil ==> has(qt.quotaInfoMap, quota.ObjectMeta.Name) && fresh(qt.quotaInfoMap[quota.ObjectMeta.Name]) && mirrors(qt.quotaInfoMap[quota.ObjectMeta.Name], quota)
+//@   ensures #others: result == nil ==> (forall k string :: k != quota.ObjectMeta.Name ==> has(qt.quotaInfoMap, k) == old(has(qt.quotaInfoMap, k)) && qt.quotaInfoMap[k] == old(qt.quotaInfoMap[k]))
+//@   ensures #parent: result == nil && quota.ObjectMeta.Name != extension.RootQuotaName && parentOf(quota) != extension.RootQuotaName ==> has(qt.quotaInfoMap, parentOf(quota)) && qt.quotaInfoMap[parentOf(quota)].IsParent && parentOf(quota) != quota.ObjectMeta.Name
+//@   ensures #child: result == nil ==> has(qt.quotaHierarchyInfo, quota.ObjectMeta.Name) && has(qt.quotaHierarchyInfo, parentOf(quota)) && has(qt.quotaHierarchyInfo[parentOf(quota)], quota.ObjectMeta.Name)
+//@   ensures #hier-exact: result == nil ==> (forall p string, c string :: has(qt.quotaHierarchyInfo[p], c) == ((p == parentOf(quota) && c == quota.ObjectMeta.Name) || old(has(qt.quotaHierarchyInfo[p], c))))
+//@   ensures #root-children-kept: result == nil ==> (forall c string :: old(has(qt.quotaHierarchyInfo[extension.RootQuotaName], c)) ==> has(qt.quotaHierarchyInfo[extension.RootQuotaName], c))
+//@   ensures #ns-bound: result == nil ==> (forall i int :: 0 <= i && i < len(nsOf(quota)) ==> !old(has(qt.namespaceToQuotaMap, nsOf(quota)[i])) && has(qt.namespaceToQuotaMap, nsOf(quota)[i]) && qt.namespaceToQuotaMap[nsOf(quota)[i]] == quota.ObjectMeta.Name)
+//@   ensures #ns-others: result == nil ==> (forall ns string :: (has(qt.namespaceToQuotaMap, ns) == old(has(qt.namespaceToQuotaMap, ns)) && qt.namespaceToQuotaMap[ns] == old(qt.namespaceToQuotaMap[ns])) || (exists i int :: 0 <= i && i < len(nsOf(quota)) && nsOf(quota)[i] == ns))
+//@   ensures #inv: result == nil ==> qtOK(qt) && infosOK(qt) && hierOK(qt) && namesOK(qt)
+//@   modifies contents(qt.quotaInfoMap), contents(qt.quotaHierarchyInfo), contents(qt.quotaHierarchyInfo[parentOf(quota)]), contents(qt.namespaceToQuotaMap)
+//@   loop 1 invariant forall j int :: 0 <= j && j < $i ==> !has(qt.namespaceToQuotaMap, $range[j])
+//@   loop 2 invariant 0 <= $i && $i <= len($range)
+//@   loop 2 invariant forall j int :: {$range[j]} 0 <= j && j < $i ==> has(qt.namespaceToQuotaMap, $range[j]) && qt.namespaceToQuotaMap[$range[j]] == quota.ObjectMeta.Name
+//@   loop 2 invariant forall ns string :: (has(qt.namespaceToQuotaMap, ns) == old(has(qt.namespaceToQuotaMap, ns)) && qt.namespaceToQuotaMap[ns] == old(qt.namespaceToQuotaMap[ns])) || (exists j int :: 0 <= j && j < $i && $range[j] == ns)
+
+// no recorded non-root quota lies on a parent cycle of length <= 3 that avoids the root (consequence of the tree invariant: parent links reach the root)
+//@ spec func noShortCycle(qt *quotaTopology) bool = forall q string :: {has(qt.quotaInfoMap, q)} has(qt.quotaInfoMap, q) && q != extension.RootQuotaName ==> par(qt, q) != q && (has(qt.quotaInfoMap, par(qt, q)) && par(qt, q) != extension.RootQuotaName ==> par(qt, par(qt, q)) != q && (has(qt.quotaInfoMap, par(qt, par(qt, q))) && par(qt, par(qt, q)) != extension.RootQuotaName ==> par(qt, par(qt, par(qt, q))) != q))
+// A fact about every Go map that the engine's map model lacks (it only knows "a key exists ==> len >= 1"): two distinct keys ==> len >= 2.
+// Needed because the ancestor walk of checkParentQuotaInfo is bounded by steps <= len(quotaInfoMap). It excludes no input.
+//@ spec func twoKeys(qt *quotaTopology) bool = forall a string, b string :: {has(qt.quotaInfoMap, a), has(qt.quotaInfoMap, b)} has(qt.quotaInfoMap, a) && has(qt.quotaInfoMap, b) && a != b ==> len(qt.quotaInfoMap) >= 2
+
+//@ func (*quotaTopology).ValidUpdateQuota [C15]
+//@   requires topoOK(qt) && noShortCycle(qt) && twoKeys(qt)
+//@   requires oldQuota != nil && separate(qt, oldQuota)
+//@   requires newQuota != nil ==> separate(qt, newQuota)
+//@   ensures #nilarg: newQuota == nil ==> result != nil
+//@   ensures #reject-frame: result != nil ==> topoUnchanged(qt)
+//@   ensures #acyclic1: result == nil && has(qt.quotaInfoMap, newQuota.ObjectMeta.Name) && newQuota.ObjectMeta.Name != extension.RootQuotaName ==> par(qt, newQuota.ObjectMeta.Name) != newQuota.ObjectMeta.Name
+//@   ensures #acyclic2: result == nil && has(qt.quotaInfoMap, newQuota.ObjectMeta.Name) && newQuota.ObjectMeta.Name != extension.RootQuotaName && has(qt.quotaInfoMap, par(qt, newQuota.ObjectMeta.Name)) && par(qt, newQuota.ObjectMeta.Name) != extension.RootQuotaName ==> par(qt, par(qt, newQuota.ObjectMeta.Name)) != newQuota.ObjectMeta.Name
+//@   ensures #acyclic3: result == nil && has(qt.quotaInfoMap, newQuota.ObjectMeta.Name) && newQuota.ObjectMeta.Name != extension.RootQuotaName && has(qt.quotaInfoMap, par(qt, newQuota.ObjectMeta.Name)) && par(qt, newQuota.ObjectMeta.Name) != extension.RootQuotaName && has(qt.quotaInfoMap, par(qt, par(qt, newQuota.ObjectMeta.Name))) && par(qt, par(qt, newQuota.ObjectMeta.Name)) != extension.RootQuotaName ==> par(qt, par(qt, par(qt, newQuota.ObjectMeta.Name))) != newQuota.ObjectMeta.Name
+//@   ensures #noop: result == nil && (newQuota.ObjectMeta.Name == extension.SystemQuotaName || newQuota.ObjectMeta.Name == extension.RootQuotaName || !old(has(qt.quotaInfoMap, newQuota.ObjectMeta.Name))) ==> topoUnchanged(qt)
+//@   ensures #recorded: result == nil ==> topoUnchanged(qt) || (has(qt.quotaInfoMap, newQuota.ObjectMeta.Name) && fresh(qt.quotaInfoMap[newQuota.ObjectMeta.Name]) && mirrors(qt.quotaInfoMap[newQuota.ObjectMeta.Name], newQuota))
+//@   ensures #self: result == nil && fresh(qt.quotaInfoMap[newQuota.ObjectMeta.Name]) ==> (forall n v1.ResourceName :: has(newQuota.Spec.Min, n) ==> has(newQuota.Spec.Max, n) && val(newQuota.Spec.Min, n) <= val(newQuota.Spec.Max, n) && val(newQuota.Spec.Min, n) >= 0)
+//@   ensures #others: forall k string :: k != newQuota.ObjectMeta.Name ==> has(qt.quotaInfoMap, k) == old(has(qt.quotaInfoMap, k)) && qt.quotaInfoMap[k] == old(qt.quotaInfoMap[k])
+//@   ensures #parent: result == nil && fresh(qt.quotaInfoMap[newQuota.ObjectMeta.Name]) && parentOf(newQuota) != extension.RootQuotaName ==> old(has(qt.quotaInfoMap, parentOf(newQuota))) && old(qt.quotaInfoMap[parentOf(newQuota)].IsParent) && has(qt.quotaHierarchyInfo, parentOf(newQuota))
+//@   ensures #isparent: result == nil && fresh(qt.quotaInfoMap[newQuota.ObjectMeta.Name]) && old(qt.quotaInfoMap[newQuota.ObjectMeta.Name].IsParent) && !qt.quotaInfoMap[newQuota.ObjectMeta.Name].IsParent ==> (forall c string :: !old(has(qt.quotaHierarchyInfo[newQuota.ObjectMeta.Name], c)))
+//@   ensures #hier-keys: forall p string :: has(qt.quotaHierarchyInfo, p) == old(has(qt.quotaHierarchyInfo, p)) && qt.quotaHierarchyInfo[p] == old(qt.quotaHierarchyInfo[p])
+//@   ensures #hier-exact: result == nil && fresh(qt.quotaInfoMap[newQuota.ObjectMeta.Name]) ==> (forall p string, c string :: has(qt.quotaHierarchyInfo[p], c) == (old(par(qt, newQuota.ObjectMeta.Name)) == parentOf(newQuota) ? old(has(qt.quotaHierarchyInfo[p], c)) : ((p == parentOf(newQuota) && c == newQuota.ObjectMeta.Name) || (old(has(qt.quotaHierarchyInfo[p], c)) && !(p == old(par(qt, newQuota.ObjectMeta.Name)) && c == newQuota.ObjectMeta.Name)))))
+//@   ensures #ns-free: result == nil && fresh(qt.quotaInfoMap[newQuota.ObjectMeta.Name]) ==> (forall i int :: 0 <= i && i < len(nsOf(newQuota)) ==> !old(has(qt.namespaceToQuotaMap, nsOf(newQuota)[i])) || old(qt.namespaceToQuotaMap[nsOf(newQuota)[i]]) == newQuota.ObjectMeta.Name)
+//@   ensures #ns-new: result == nil && fresh(qt.quotaInfoMap[newQuota.ObjectMeta.Name]) ==> (forall i int :: 0 <= i && i < len(nsOf(newQuota)) ==> has(qt.namespaceToQuotaMap, nsOf(newQuota)[i]) && qt.namespaceToQuotaMap[nsOf(newQuota)[i]] == newQuota.ObjectMeta.Name)
+//@   ensures #ns-old: result == nil && fresh(qt.quotaInfoMap[newQuota.ObjectMeta.Name]) ==> (forall i int :: {nsOf(oldQuota)[i]} 0 <= i && i < len(nsOf(oldQuota)) ==> !has(qt.namespaceToQuotaMap, nsOf(oldQuota)[i]) || (exists j int :: 0 <= j && j < len(nsOf(newQuota)) && nsOf(newQuota)[j] == nsOf(oldQuota)[i]))
+//@   ensures #ns-others: forall ns string :: (has(qt.namespaceToQuotaMap, ns) == old(has(qt.namespaceToQuotaMap, ns)) && qt.namespaceToQuotaMap[ns] == old(qt.namespaceToQuotaMap[ns])) || (exists j int :: 0 <= j && j < len(nsOf(newQuota)) && nsOf(newQuota)[j] == ns) || (exists i int :: 0 <= i && i < len(nsOf(oldQuota)) && nsOf(oldQuota)[i] == ns)
+//@   ensures #inv: qtOK(qt) && infosOK(qt) && hierOK(qt) && namesOK(qt)
+//@   modifies contents(qt.quotaInfoMap), contents(qt.quotaHierarchyInfo[qt.quotaInfoMap[newQuota.ObjectMeta.Name].ParentName]), contents(qt.quotaHierarchyInfo[parentOf(newQuota)]), contents(qt.namespaceToQuotaMap)
+//@   loop 1 invariant forall j int :: {$range[j]} 0 <= j && j < $i ==> !has(qt.namespaceToQuotaMap, $range[j]) || qt.namespaceToQuotaMap[$range[j]] == newQuota.ObjectMeta.Name
+//@   loop 2 invariant 0 <= $i && $i <= len($range)
+//@   loop 2 invariant forall j int :: {$range[j]} 0 <= j && j < $i ==> !has(qt.namespaceToQuotaMap, $range[j])
+//@   loop 2 invariant forall ns string :: (has(qt.namespaceToQuotaMap, ns) == old(has(qt.namespaceToQuotaMap, ns)) && qt.namespaceToQuotaMap[ns] == old(qt.namespaceToQuotaMap[ns])) || (exists j int :: 0 <= j && j < $i && $range[j] == ns)
+//@   loop 3 invariant 0 <= $i && $i <= len($range)
+//@   loop 3 invariant forall j int :: {$range[j]} 0 <= j && j < $i ==> has(qt.namespaceToQuotaMap, $range[j]) && qt.namespaceToQuotaMap[$range[j]] == newQuota.ObjectMeta.Name
+//@   loop 3 invariant forall i int :: {nsOf(oldQuota)[i]} 0 <= i && i < len(nsOf(oldQuota)) ==> !has(qt.namespaceToQuotaMap, nsOf(oldQuota)[i]) || (exists j int :: 0 <= j && j < $i && $range[j] == nsOf(oldQuota)[i])
+//@   loop 3 invariant forall ns string :: (has(qt.namespaceToQuotaMap, ns) == old(has(qt.namespaceToQuotaMap, ns)) && qt.namespaceToQuotaMap[ns] == old(qt.namespaceToQuotaMap[ns])) || (exists j int :: 0 <= j && j < $i && $range[j] == ns) || (exists i int :: 0 <= i && i < len(nsOf(oldQuota)) && nsOf(oldQuota)[i] == ns)
+
+// Builds a by-value copy of the fields that matter for "did anything change"; touches no existing state.
+//@ func quotaFieldsCopy [C15]
+//@   requires q != nil
+//@   modifies nothing
+
+// ---------- ValidDeleteQuota ----------
+
+// (modifies lists allelems([]string): the pod-name list built with append inside a loop makes the engine forget the whole
+// string-element heap; no []string content is part of the topology state, so this does not weaken the property.)
+//@ func (*quotaTopology).ValidDeleteQuota [C15]
+//@   requires topoOK(qt) && quota != nil && separate(qt, quota)
+//@   ensures #protected: quota.ObjectMeta.Name == extension.SystemQuotaName || quota.ObjectMeta.Name == extension.RootQuotaName || quota.ObjectMeta.Name == extension.DefaultQuotaName ==> result != nil
+//@   ensures #unknown: !old(has(qt.quotaInfoMap, quota.ObjectMeta.Name)) || !old(has(qt.quotaHierarchyInfo, quota.ObjectMeta.Name)) ==> result != nil
+//@   ensures #haschildren: (exists c string :: old(has(qt.quotaHierarchyInfo[quota.ObjectMeta.Name], c))) ==> result != nil
+//@   ensures #haschildren-len: old(len(qt.quotaHierarchyInfo[quota.ObjectMeta.Name])) > 0 ==> result != nil
+//@   ensures #listed: result == nil ==> calls("List") == 1
+//@   assert before call GetAnnotationQuotaNamespaces: #nopods: err == nil && len(podList.Items) == 0
+//@   ensures #reject-frame: result != nil ==> topoUnchanged(qt)
+//@   ensures #removed: result == nil ==> !has(qt.quotaInfoMap, quota.ObjectMeta.Name) && !has(qt.quotaHierarchyInfo, quota.ObjectMeta.Name)
+//@   ensures #others: forall k string :: k != quota.ObjectMeta.Name ==> has(qt.quotaInfoMap, k) == old(has(qt.quotaInfoMap, k)) && qt.quotaInfoMap[k] == old(qt.quotaInfoMap[k]) && has(qt.quotaHierarchyInfo, k) == old(has(qt.quotaHierarchyInfo, k)) && qt.quotaHierarchyInfo[k] == old(qt.quotaHierarchyInfo[k])
+//@   ensures #hier-exact: result == nil ==> (forall p string, c string :: has(qt.quotaHierarchyInfo[p], c) == (old(has(qt.quotaHierarchyInfo[p], c)) && p != quota.ObjectMeta.Name && !(p == old(par(qt, quota.ObjectMeta.Name)) && c == quota.ObjectMeta.Name)))
+//@   ensures #ns-gone: result == nil ==> (forall i int :: 0 <= i && i < len(nsOf(quota)) ==> !has(qt.namespaceToQuotaMap, nsOf(quota)[i]))
+//@   ensures #ns-others: forall ns string :: (has(qt.namespaceToQuotaMap, ns) == old(has(qt.namespaceToQuotaMap, ns)) && qt.namespaceToQuotaMap[ns] == old(qt.namespaceToQuotaMap[ns])) || (exists i int :: 0 <= i && i < len(nsOf(quota)) && nsOf(quota)[i] == ns)
+//@   ensures #inv: qtOK(qt) && infosOK(qt) && hierOK(qt) && namesOK(qt)
+//@   modifies contents(qt.quotaInfoMap), contents(qt.quotaHierarchyInfo), contents(qt.quotaHierarchyInfo[qt.quotaInfoMap[quota.ObjectMeta.Name].ParentName]), contents(qt.namespaceToQuotaMap), allelems(nsOf(quota))
+//@   loop 1 invariant podNames == nil || fresh(podNames)
+//@   loop 2 invariant 0 <= $i && $i <= len($range)
+//@   loop 2 invariant forall j int :: {$range[j]} 0 <= j && j < $i ==> !has(qt.namespaceToQuotaMap, $range[j])
+//@   loop 2 invariant forall ns string :: (has(qt.namespaceToQuotaMap, ns) == old(has(qt.namespaceToQuotaMap, ns)) && qt.namespaceToQuotaMap[ns] == old(qt.namespaceToQuotaMap[ns])) || (exists j int :: 0 <= j && j < $i && $range[j] == ns)
